@@ -201,26 +201,37 @@ func (s *Service) Open() error {
 // Close closes the hinted handoff service.
 func (s *Service) Close() error {
 	s.Logger.Info("Shutting down hinted handoff service")
-	s.mu.Lock()
-	defer s.mu.Unlock()
+	if err := func() error {
+		s.mu.Lock()
+		defer s.mu.Unlock()
 
-	for _, processors := range s.processors {
-		for _, p := range processors {
-			if err := p.Close(); err != nil {
-				return err
+		for _, processors := range s.processors {
+			for _, p := range processors {
+				if err := p.Close(); err != nil {
+					return err
+				}
 			}
 		}
+
+		if s.Monitor != nil {
+			s.Monitor.DeregisterDiagnosticsClient("hh")
+		}
+
+		if s.closing != nil {
+			close(s.closing)
+		}
+		return nil
+	}(); err != nil {
+		return err
 	}
 
-	if s.Monitor != nil {
-		s.Monitor.DeregisterDiagnosticsClient("hh")
-	}
-
-	if s.closing != nil {
-		close(s.closing)
-	}
+	// Wait for the purge goroutine without holding the lock: it takes the lock
+	// on every tick, and would never see the closing signal while blocked on it.
 	s.wg.Wait()
+
+	s.mu.Lock()
 	s.closing = nil
+	s.mu.Unlock()
 
 	return nil
 }
@@ -344,6 +355,14 @@ func (s *Service) purgeInactiveProcessors() {
 			func() {
 				s.mu.Lock()
 				defer s.mu.Unlock()
+
+				// The service may have been closed while this pass waited for the lock;
+				// closed processors look empty and must not be purged.
+				select {
+				case <-s.closing:
+					return
+				default:
+				}
 
 				for nodeID, processors := range s.processors {
 					for shardID, p := range processors {
